@@ -53,7 +53,9 @@ Fixpoint gen_index_go (bound : Z) (ws : list Z) : draw Z :=
         else gen_index_go bound r
   end.
 
-(** [debug_assert!(bound > 0)]; with bound = 0 the release build would divide by zero. *)
+(** [debug_assert!(bound > 0)]. Every call site passes bound >= 2 (shuffle: i + 1 with i >= 1;
+    wake-ups: min(jitter_cap, slack) + 1 with the minimum non-zero), so the assertion is
+    unreachable through the public API in either profile. *)
 Definition gen_index (ws : list Z) (bound : Z) : draw Z :=
   if bound <=? 0 then Panic else gen_index_go bound ws.
 
@@ -157,16 +159,24 @@ Definition candidate_boundary_bounds (I nu63 funding most_recent : Z) : option (
 Definition earliest_broadcast_height (I nu63 funding : Z) : Z :=
   sat_add_u32 (lowest_candidate_boundary I nu63 funding) I.
 
-(** One word of [draw_anchor_age]: up to [k] coin flips, continuing the running [age]. *)
+(** One word of [draw_anchor_age]: up to [k] coin flips, continuing the running [age].
+    [oc] = the crate is built with overflow checks (debug profile): [age += 1] at u32::MAX panics;
+    without them (release profile) it wraps to 0. *)
 Inductive scan := Found (age : Z) | More (age : Z) | AgeOverflow.
 
-Fixpoint scan_bits (k : nat) (bits age : Z) : scan :=
+(** [age += 1] on u32: panics at u32::MAX with overflow checks ([None]), wraps to 0 without. *)
+Definition bump_age (oc : bool) (age : Z) : option Z :=
+  if age =? u32_max then (if oc then None else Some 0) else Some (age + 1).
+
+Fixpoint scan_bits (oc : bool) (k : nat) (bits age : Z) : scan :=
   match k with
   | O => More age
   | S k' =>
       if Z.odd bits then Found age
-      else if age =? u32_max then AgeOverflow            (* age += 1 overflows (debug panic) *)
-      else scan_bits k' (bits / 2) (age + 1)
+      else match bump_age oc age with
+           | None => AgeOverflow
+           | Some age' => scan_bits oc k' (bits / 2) age'
+           end
   end.
 
 (** The body of the rejection loop after an age has been drawn. [None] = redraw. *)
@@ -183,36 +193,36 @@ Definition try_candidate (I lowest highest most_recent age : Z) : option Z :=
 (** [sample_recency_weighted_boundary] with [draw_anchor_age] inlined: [age] is the running age
     of the draw in progress (1 at the start of every draw); the unread bits of the word in which
     a draw stops are discarded, as in the code. *)
-Fixpoint sample_go (I lowest highest most_recent age : Z) (ws : list Z) : draw Z :=
+Fixpoint sample_go (oc : bool) (I lowest highest most_recent age : Z) (ws : list Z) : draw Z :=
   match ws with
   | [] => Panic
   | w :: r =>
-      match scan_bits 64 w age with
+      match scan_bits oc 64 w age with
       | Found a =>
           match try_candidate I lowest highest most_recent a with
           | Some c => Ok (c, r)
-          | None => sample_go I lowest highest most_recent 1 r
+          | None => sample_go oc I lowest highest most_recent 1 r
           end
-      | More a => sample_go I lowest highest most_recent a r
+      | More a => sample_go oc I lowest highest most_recent a r
       | AgeOverflow => Panic
       end
   end.
 
-Definition sample_boundary (I lowest highest most_recent : Z) (ws : list Z) : draw Z :=
-  sample_go I lowest highest most_recent 1 ws.
+Definition sample_boundary (oc : bool) (I lowest highest most_recent : Z) (ws : list Z) : draw Z :=
+  sample_go oc I lowest highest most_recent 1 ws.
 
-Definition draw_anchor_boundary (I nu63 funding tip : Z) (ws : list Z) : draw (option Z) :=
+Definition draw_anchor_boundary (oc : bool) (I nu63 funding tip : Z) (ws : list Z) : draw (option Z) :=
   let most_recent := boundary_at_or_below I tip in
   match candidate_boundary_bounds I nu63 funding most_recent with
   | None => Ok (None, ws)
   | Some (lowest, highest) =>
-      match sample_boundary I lowest highest most_recent ws with
+      match sample_boundary oc I lowest highest most_recent ws with
       | Ok (c, r) => Ok (Some c, r)
       | _ => Panic
       end
   end.
 
-Definition redraw_anchor_boundary (I prior broadcast : Z) (ws : list Z) : draw (option Z) :=
+Definition redraw_anchor_boundary (oc : bool) (I prior broadcast : Z) (ws : list Z) : draw (option Z) :=
   let most_recent := boundary_at_or_below I broadcast in
   match checked_sub_u32 most_recent I with
   | None => Ok (None, ws)
@@ -220,7 +230,7 @@ Definition redraw_anchor_boundary (I prior broadcast : Z) (ws : list Z) : draw (
       let lowest := boundary_at_or_above I prior in
       if highest <? lowest then Ok (None, ws)
       else
-        match sample_boundary I lowest highest most_recent ws with
+        match sample_boundary oc I lowest highest most_recent ws with
         | Ok (c, r) => Ok (Some c, r)
         | _ => Panic
         end
@@ -379,6 +389,23 @@ Definition is_canonical_within (value lo hi : Z) : bool :=
   else
     let n := strip_radix 64 value in
     (n =? 5) || (n =? 2) || (n =? 1).
+
+(** The same loop with non-termination visible: [None] = the loop is still running after [fuel]
+    iterations. On 0 it never exits (0 is a multiple of the radix and 0 / radix = 0). *)
+Fixpoint strip_radix_opt (fuel : nat) (n : Z) : option Z :=
+  match fuel with
+  | O => None
+  | S f => if n mod DENOMINATION_RADIX =? 0 then strip_radix_opt f (n / DENOMINATION_RADIX) else Some n
+  end.
+
+(** [None] = does not terminate *)
+Definition is_canonical_within_opt (value lo hi : Z) : option bool :=
+  if (value <? lo) || (hi <? value) then Some false
+  else
+    match strip_radix_opt 64 value with
+    | Some n => Some ((n =? 5) || (n =? 2) || (n =? 1))
+    | None => None
+    end.
 
 Definition opt_is (o : option bool) (b : bool) : bool :=
   match o with Some x => Bool.eqb x b | None => false end.
